@@ -52,6 +52,11 @@ type scenario struct {
 	MaxDelayNs int64   `json:"maxDelayNs"`
 	ReadErrAtNs int64  `json:"readErrAtNs"` // inject a socket read error at this time (0 = none)
 	ReCloseAtNs []int64 `json:"reCloseAtNs"` // per accepted conn: Close it once more at this time if it is closed by then (0 = none)
+	// LastWrite: just before everything is closed, one still open connection writes a datagram
+	// that cannot be sent ("oversize": larger than a UDP datagram; "fail": the socket's next
+	// send fails). In batch mode the write is only queued, so the failure surfaces in Close.
+	LastWrite string `json:"lastWrite,omitempty"`
+	ReadGapNs int64  `json:"readGapNs,omitempty"` // readers pause this long before every Read (lagging readers keep data in the connection's ring)
 }
 
 var gaps = []int64{0, 0, 1, 1000, 100000, 1000000, 5000000}
@@ -68,7 +73,17 @@ func gen(r *harn.Rng, tier string) interface{} {
 		for j, n := 0, r.Range(1, 6); j < n; j++ {
 			plan = append(plan, dg{GapNs: gaps[r.Intn(len(gaps))], Len: r.Pick(8, 8, 20, 200, 1400, 2045, 2046, 2047, 8000), Odd: r.Bool(0.3)})
 		}
+		if r.Bool(0.12) {
+			// two small datagrams and one that ends exactly at the end of the connection's 2 KiB ring
+			// (2-byte length prefixes), then more traffic
+			a, b := r.Pick(8, 100, 500), r.Pick(8, 100, 300)
+			pre := []dg{{GapNs: 0, Len: a}, {GapNs: 0, Len: b}, {GapNs: gaps[r.Intn(len(gaps))], Len: 2048 - 6 - a - b}}
+			plan = append(pre, plan...)
+		}
 		sc.Remotes = append(sc.Remotes, plan)
+	}
+	if r.Bool(0.3) {
+		sc.ReadGapNs = int64(r.Pick(1, 1000, 100000, 1000000))
 	}
 	for i := 0; i < 6; i++ {
 		sc.CloseAfter = append(sc.CloseAfter, r.Pick(0, 0, 0, 1, 2, 3))
@@ -99,6 +114,9 @@ func gen(r *harn.Rng, tier string) interface{} {
 			t = gaps[3+r.Intn(len(gaps)-3)] * int64(r.Pick(1, 2, 3))
 		}
 		sc.ReCloseAtNs = append(sc.ReCloseAtNs, t)
+	}
+	if r.Bool(0.15) {
+		sc.LastWrite = []string{"oversize", "fail"}[r.Intn(2)]
 	}
 	return sc
 }
@@ -164,6 +182,9 @@ func run(env *simrt.Env, sci interface{}) {
 	readUntilErr := func(c *connRec) {
 		buf := make([]byte, 9000)
 		for {
+			if sc.ReadGapNs > 0 {
+				env.Sleep(time.Duration(sc.ReadGapNs))
+			}
 			env.Enter("conn.Read")
 			n, err := c.conn.Read(buf)
 			env.Leave()
@@ -352,6 +373,21 @@ func run(env *simrt.Env, sci interface{}) {
 		}
 	}
 
+	if sc.LastWrite != "" {
+		for _, c := range conns {
+			if c.closeInv != 0 {
+				continue
+			}
+			if sc.LastWrite == "oversize" {
+				_, _ = c.conn.Write(make([]byte, simnet.MaxDatagram+1))
+			} else {
+				simnet.InjectWriteError(lkey, simnet.ErrInjected)
+				_, _ = c.conn.Write([]byte{0xAB, 1, 2, 3, 4, 5, 6, 7})
+			}
+			env.Fault("unsendable-last-write")
+			break
+		}
+	}
 	// ---------------- teardown: close everything (idempotently), then the socket must be gone
 	teardownStart := env.Stamp()
 	if listenerCloseInv == 0 {
